@@ -81,13 +81,12 @@ var ConfigDefault = Config{
 
 // Helper function to set default values
 func configDefault(config ...Config) Config {
-	// Return default config if nothing provided
-	if len(config) < 1 {
-		return ConfigDefault
+	// Start from the default config if nothing provided (it still needs its MaxFunc below)
+	cfg := ConfigDefault
+	if len(config) > 0 {
+		// Override default config
+		cfg = config[0]
 	}
-
-	// Override default config
-	cfg := config[0]
 
 	// Set default values
 	if cfg.Next == nil {
